@@ -495,6 +495,6 @@ package storage
 //@   ensures !sessOpen(s) && wfState(s)                                                                                          // C09.commit-clears
 //@   ensures forall k string :: bHas(s)[k] == old(bHas(s))[k] && (bHas(s)[k] ==> bVal(s)[k] == old(bVal(s))[k])                    // C09.commit-persists
 //@   ensures forall k string :: !has(kvmap(s.cache), k)                                                                           // C09.commit-clears
-//@   ensures version == s.cs.Version && s.cs.Version == old(s.cs.Version) + 1                                                     // C09.commit-version
+//@   ensures version == s.cs.Version && s.cs.Version == old(s.cs.Version) + 1 && s.cs.Version == ivVersion(s.cs.Delivered)         // C09.commit-version
 //@   ensures forall k string :: verVal(s.cs)[version][k] == (bHas(s)[k] ? bVal(s)[k] : bytes_nil())                               // C09.commit-version
 //@   ensures forall v int :: v != version ==> verVal(s.cs)[v] == old(verVal(s.cs))[v]                                             // C09.versions-immutable
